@@ -1,8 +1,8 @@
 SPEC = {
-    "claimed": False,
+    "claimed": True,
     "gen": ["storage"],
     "theorems": ["C13_agree", "C13_stored_agree", "C13_ghosts", "C13_error_no_advance", "C13_genuine_refusals",
-                 "C13_error_never_own_tick_refuted", "C13_no_panic", "C13_K09_panics", "C13_nonvacuous"],
+                 "C13_error_never_own_tick_refuted", "C13_manager_total", "C13_no_panic", "C13_K09_panics", "C13_nonvacuous"],
     "allowed_axioms": [],
     "extract": {
         "LibTw2.Model.Storage": ["lstep", "link_init", "manager_ack", "api_ok", "follows_api",
